@@ -45,11 +45,11 @@ func runC37(p *core.Prog, r *core.Report) {
 	// ---- R1
 	r1 := r.Rule("C37.R1", "every approve* call is dominated by IsAlphabet()==true and the nil result of the operation's check function", 10)
 	pairs := map[string][]string{ // process function -> approve callee -> required checks
-		cpT + ".processContainerPut":          {cpT + ".approvePutContainer", cpT + ".checkPutContainer"},
+		cpT + ".processContainerPut":           {cpT + ".approvePutContainer", cpT + ".checkPutContainer"},
 		cpT + ".processCreateContainerRequest": {cpT + ".approvePutContainer", cpT + ".checkPutContainer"},
-		cpT + ".processContainerDelete":       {cpT + ".approveDeleteContainer", cpT + ".checkDeleteContainer"},
-		cpT + ".processPutEACLRequest":        {cpT + ".approveSetEACL", cpT + ".checkSetEACL"},
-		cpT + ".processSetAttributeRequest":   {cpT + ".approveSetAttributeRequest", cpT + ".checkSetAttributeRequest"},
+		cpT + ".processContainerDelete":        {cpT + ".approveDeleteContainer", cpT + ".checkDeleteContainer"},
+		cpT + ".processPutEACLRequest":         {cpT + ".approveSetEACL", cpT + ".checkSetEACL"},
+		cpT + ".processSetAttributeRequest":    {cpT + ".approveSetAttributeRequest", cpT + ".checkSetAttributeRequest"},
 		cpT + ".processRemoveAttributeRequest": {cpT + ".approveRemoveAttributeRequest", cpT + ".checkRemoveAttributeRequest"},
 	}
 	alpha := core.Guard{Name: "is-alphabet", Match: func(s core.Site) bool { return strings.HasSuffix(s.Name, ".IsAlphabet") }, Comps: []core.Comp{{Result: -1, Kind: core.IsTrue}}}
@@ -199,7 +199,9 @@ func runC37(p *core.Prog, r *core.Report) {
 		{Name: "no-container-given", Comps: []core.Comp{{Result: -1, Kind: core.IsFalse}}, Value: func(fn *ssa.Function, v ssa.Value) bool { return fieldOfParam(fn, v, "idContainerSet") }},
 		{Name: "v1-issuer", Match: func(s core.Site) bool { return strings.HasSuffix(s.Name, "session.IssuedBy") }, Comps: []core.Comp{{Result: -1, Kind: core.IsTrue}}},
 		core.G("v1-lifetime", core.ErrNil, cpT+".checkTokenLifetime"),
-		{Name: "v1-data-signature", Match: func(s core.Site) bool { return strings.HasSuffix(s.Name, "session.Container).VerifySessionDataSignature") }, Comps: []core.Comp{{Result: -1, Kind: core.IsTrue}}},
+		{Name: "v1-data-signature", Match: func(s core.Site) bool {
+			return strings.HasSuffix(s.Name, "session.Container).VerifySessionDataSignature")
+		}, Comps: []core.Comp{{Result: -1, Kind: core.IsTrue}}},
 		core.G("v2-verified", core.ErrNil, cpT+".verifySessionV2"),
 		core.G("owner-signature", core.ErrNil, "internal/crypto.AuthenticateContainerRequest"),
 	}
@@ -240,7 +242,9 @@ func runC37(p *core.Prog, r *core.Report) {
 			}
 			return isIss(bo.X) && fieldOfParam(fn, bo.Y, "ownerContainer") || isIss(bo.Y) && fieldOfParam(fn, bo.X, "ownerContainer")
 		}},
-		{Name: "v2-lifetime", Match: func(s core.Site) bool { return (strings.HasSuffix(s.Name, "session/v2.Token).ValidAt") || strings.HasSuffix(s.Name, "session/v2.Lifetime).ValidAt")) }, Comps: []core.Comp{{Result: -1, Kind: core.IsTrue}}},
+		{Name: "v2-lifetime", Match: func(s core.Site) bool {
+			return (strings.HasSuffix(s.Name, "session/v2.Token).ValidAt") || strings.HasSuffix(s.Name, "session/v2.Lifetime).ValidAt"))
+		}, Comps: []core.Comp{{Result: -1, Kind: core.IsTrue}}},
 	}
 	core.CheckSuccessFn(p, r3, v2f, core.SuccessRule{ResultIdx: -1, MinReturns: 1, Guards: v2})
 	// ---- R4
